@@ -426,27 +426,20 @@ ALLOW = {
     'session::Session::choose_piece_index::{closure#0}/overflow:Add/': 'u32 availability counter bounded by the number of peers',
     'session::Session::handle_piece_done::{closure#0}/index/self.pieces_status': 'index = piece_index recorded by the manager itself',
     'session::Session::handle_piece_cancel::{closure#0}/index/self.pieces_status': 'index = piece_index recorded by the manager itself',
-    'session::Session::timeout_change_conn_state::{closure#0}/overflow:Add/': '(round + 1) % 3',
     'session::Session::timeout_change_conn_state::{closure#0}::{closure#': 'rates are Some: guarded by the any(is_none) early return of the same function',
-    'session::Session::change_conn_state/overflow:Add/': 'count < MAX_UNCHOKED',
-    'session::Session::handle_tracker_cmd::{closure#0}/overflow:': 'small constants and peer counts in i32',
+    'session::Session::handle_tracker_cmd::{closure#0}/overflow:Sub/(AddWithOverflow(constants::MAX_UNCHOKED, constants::MAX_OPTIMISTIC).0 as i32),(std::iter::Iterator::count(':
+        'signed (i32) difference of a small constant and a peer count: may be negative, cannot overflow; clamped by max(0, ..)',
     'peer::Peer::handle_choke/index/pieces_status,self.piece_index': 'index recorded by the manager itself',
     'peer::Peer::handle_unchoke/index/pieces_status,chosen_index': 'chosen by choose_piece_index (< pieces_num)',
-    'peer::Peer::handle_unchoke/overflow:Add/': 'reservation counter bounded by the number of peers',
     'peer::Peer::handle_piece/index/pieces_status,chosen_index': 'chosen by choose_piece_index (< pieces_num)',
-    'peer::Peer::handle_piece/overflow:Add/': 'reservation counter bounded by the number of peers',
     'peer::Peer::handle_have/index/': 'index validated by Have::validate(pieces_num) in the connection task before RecvHave is sent (obligation 7b)',
     'peer::Peer::handle_request/index/pieces_status,piece_index': 'guarded by piece_index >= pieces_num -> Ignore just above',
     'peer::Peer::update_pieces/copy_from_slice/': 'bitfield.to_vec(pieces_num) returns exactly pieces_num entries or Err (length validated)',
-    'peer::req_data': 'accessor indices chosen by the manager',
     'metainfo::Metainfo::piece/index/': 'valid piece index (chosen by the manager / guarded by handle_request)',
     'metainfo::Metainfo::piece_length/overflow:Sub/': 'pieces.len() - 1: at least one piece when called with a valid index',
     'metainfo::Metainfo::piece_length/rem_zero/': 'piece length non-zero by construction (C17)',
-    'metainfo::Metainfo::total_length': 'no panic site expected',
-    'messages::bitfield::Bitfield::to_vec/': 'constant divisors / shifts',
-    'messages::bitfield::Bitfield::from_vec/': 'constant shifts bounded by chunks(8)',
-    'session::Session::spawn_peer_listener': 'no panic site expected',
-    'session::Session::unchoked_num': 'no panic site expected',
+    'messages::bitfield::Bitfield::to_vec/overflow:Add/': 'constant divisors / shifts',
+    'messages::bitfield::Bitfield::from_vec/overflow:Shr/': 'constant shifts bounded by chunks(8)',
     'peer::Peer::new/alloc/': 'vec![false; pieces_num]: pieces_num = number of hashes of an already parsed torrent (bounded by the torrent file size / 20)',
     'session::Session::choose_piece_index::{closure#0}/alloc/': 'vec![0; pieces_num]: same bound',
 }
